@@ -183,16 +183,20 @@ func (pr *ProtoArray) CanonAtSlot(anchor Root, slot Slot, withBlock bool) (at No
 	// short-cut common case: the slot is the anchor itself, e.g. we're building on the current head.
 	if anchorSlot == slot {
 		ref := NodeRef{Root: anchor, Slot: slot}
-		if !withBlock {
-			i, ok := pr.indices[ref]
-			if !ok {
-				panic("anchor node is missing")
-			}
-			node := &pr.nodes[i]
-			// Is the anchor a filled node?
-			if node.ParentRoot != anchor {
-				return NodeRef{}, fmt.Errorf("cannot look for pre-block %d at anchor, anchor is post-block", slot)
-			}
+		i, ok := pr.indices[ref]
+		if !ok {
+			panic("anchor node is missing")
+		}
+		node, err := pr.getNode(i)
+		if err != nil {
+			return NodeRef{}, err
+		}
+		// Is the anchor a filled node?
+		if filled := node.ParentRoot != anchor; !withBlock && filled {
+			return NodeRef{}, fmt.Errorf("cannot look for pre-block %d at anchor, anchor is post-block", slot)
+		} else if withBlock && !filled {
+			// no block exists for this slot, it's empty.
+			return NodeRef{}, nil
 		}
 		return ref, nil
 	}
